@@ -1126,10 +1126,16 @@ func (g *Gen) intBinop(st *State, op token.Token, a, b string, xt, rt types.Type
 	}
 	switch op {
 	case token.ADD:
+		if bits, uns, _ := intBits(rt); uns && bits == 64 {
+			return IntV{"(+ " + a + " " + b + ")"} // 64-bit unsigned addition treated as mathematical (like int/int64): listed assumption
+		}
 		return IntV{g.wrap("(+ "+a+" "+b+")", rt)}
 	case token.SUB:
 		return IntV{g.wrap("(- "+a+" "+b+")", rt)}
 	case token.MUL:
+		if bits, uns, _ := intBits(rt); uns && bits == 64 {
+			return IntV{"(* " + a + " " + b + ")"}
+		}
 		return IntV{g.wrap("(* "+a+" "+b+")", rt)}
 	case token.QUO:
 		g.oblige(st, "div", "", "division by zero", not(eq(b, "0")))
@@ -1307,6 +1313,15 @@ func (g *Gen) anchored(st *State, line, kind string) {
 			continue
 		}
 		for _, c := range cl {
+			if c.Kind == "assume-at" && kind == "assert-at" {
+				ctx := &specCtx{g: g, st: st, old: g.entry}
+				g.assume(st, g.evalAssume(ctx, c.E))
+				g.assertUse[c]++
+				if !g.discovery {
+					g.trustedUsed["explicit assumption at `"+anchor+"`: "+c.Src] = true
+				}
+				continue
+			}
 			if c.Kind != kind {
 				continue
 			}
